@@ -607,3 +607,70 @@ func JSON(v any) string {
 	}
 	return string(b)
 }
+
+// SchemaStrict renders a schema completely: field names, types (recursively,
+// with child field names and nullability), nullability, field-level and
+// schema-level key/value metadata (sorted by key). Two schemas are "equal in
+// schema" in the strictest sense iff their SchemaStrict strings are equal.
+func SchemaStrict(s *arrow.Schema) string {
+	var sb strings.Builder
+	sb.WriteByte('{')
+	for _, f := range s.Fields() {
+		strictField(&sb, f)
+		sb.WriteByte(',')
+	}
+	sb.WriteByte('}')
+	if s.HasMetadata() {
+		sb.WriteString("meta=")
+		sb.WriteString(CanonMeta(s.Metadata(), nil))
+	}
+	return sb.String()
+}
+
+func strictField(sb *strings.Builder, f arrow.Field) {
+	fmt.Fprintf(sb, "%q:", f.Name)
+	strictType(sb, f.Type)
+	fmt.Fprintf(sb, ":null=%v", f.Nullable)
+	if f.HasMetadata() {
+		sb.WriteString(":meta=")
+		sb.WriteString(CanonMeta(f.Metadata, nil))
+	}
+}
+
+func strictType(sb *strings.Builder, dt arrow.DataType) {
+	switch t := dt.(type) {
+	case *arrow.ListType:
+		sb.WriteString("list<")
+		strictField(sb, t.ElemField())
+		sb.WriteByte('>')
+	case *arrow.LargeListType:
+		sb.WriteString("large_list<")
+		strictField(sb, t.ElemField())
+		sb.WriteByte('>')
+	case *arrow.FixedSizeListType:
+		fmt.Fprintf(sb, "fixed_size_list[%d]<", t.Len())
+		strictField(sb, t.ElemField())
+		sb.WriteByte('>')
+	case *arrow.MapType:
+		sb.WriteString("map<")
+		strictField(sb, t.KeyField())
+		sb.WriteByte(';')
+		strictField(sb, t.ItemField())
+		fmt.Fprintf(sb, ";sorted=%v>", t.KeysSorted)
+	case *arrow.StructType:
+		sb.WriteString("struct<")
+		for _, c := range t.Fields() {
+			strictField(sb, c)
+			sb.WriteByte(',')
+		}
+		sb.WriteByte('>')
+	case *arrow.DictionaryType:
+		sb.WriteString("dict<")
+		strictType(sb, t.IndexType)
+		sb.WriteByte(',')
+		strictType(sb, t.ValueType)
+		fmt.Fprintf(sb, ",ordered=%v>", t.Ordered)
+	default:
+		sb.WriteString(dt.String())
+	}
+}
